@@ -62,7 +62,8 @@ DepositK(x, row, w, k) ==
 
 DepositAll(x, batch) == FoldLeft(LAMBDA acc, e : DepositK(acc, e[1], e[2], 1), x, batch)
 
-RetOf(x, row) == IF Inside(x, row) THEN [a \in 1..Dim(x) |-> CellOf(x, row)[a] - 1] ELSE NoneRet
+(* a row with a NaN coordinate lies in no cell *)
+RetOf(x, row) == IF ~HasNaN(row) /\ Inside(x, row) THEN [a \in 1..Dim(x) |-> CellOf(x, row)[a] - 1] ELSE NoneRet
 
 AllOnes(batch) == \A i \in 1..Len(batch) : batch[i][2] = 1
 
@@ -190,7 +191,7 @@ FromArrays(LL, ri) ==
     /\ ghost' = {<<"arrays">>} /\ UNCHANGED d
 
 Fill(row, w, r) ==
-    /\ Live /\ On("Fill") /\ h # Null /\ Len(row) = Dim(h) /\ ~HasNaN(row)
+    /\ Live /\ On("Fill") /\ h # Null /\ Len(row) = Dim(h)      \* a NaN row is skipped: nothing changes, None is returned
     /\ r = RetOf(h, row)
     /\ h' = DepositK(h, row, w, 1)
     /\ ghost' = GAddRow(ghost, row, w) /\ UNCHANGED d
@@ -203,7 +204,7 @@ FillN(batch, weighted) ==
     /\ ghost' = GAddRows(ghost, batch) /\ UNCHANGED d
 
 FindBin(row, r) ==
-    /\ Live /\ On("FindBin") /\ h # Null /\ Len(row) = Dim(h) /\ ~HasNaN(row)
+    /\ Live /\ On("FindBin") /\ h # Null /\ Len(row) = Dim(h)
     /\ r = RetOf(h, row)
     /\ UNCHANGED <<h, d, ghost>>
 
